@@ -1120,6 +1120,18 @@ def selftest(seed=1):
         probe("dijkstra: two pops swapped -> PopsLegal", w, "DijkstraTrace.tla", "Spec", ["PopsLegal"], dconst, "d.ndjson", swap_pops)
         probe("dijkstra: a distance changed -> C18", w, "DijkstraTrace.tla", "Spec", ["C18", "ResultIsSpecState"], dconst, "d.ndjson",
               lambda l: edit_first(l, lambda x: x.startswith('{"ev":"result"'), lambda e: e["dist"].__setitem__(e["prev"].index(max(e["prev"])), 12345)))
+        # long sparse graphs: the certificate rejects a distance that is one too large / too small and a predecessor without an edge
+        w.run_drive(["dijkstra", "-mode", "sparse", "-n", "1100", "-count", "2", "-seed", str(seed), "-out", "ds.ndjson"])
+        issp = lambda x: x.startswith('{"ev":"sparse"')
+        probe("sparse: unchanged runs accepted", w, "DijkstraSparse.tla", "Spec", ["DriverOK", "C18"], {}, "ds.ndjson", lambda l: l, False)
+        probe("sparse: far distance + 1 -> C18", w, "DijkstraSparse.tla", "Spec", ["C18"], {}, "ds.ndjson",
+              lambda l: edit_first(l, issp, lambda e: e["dist"].__setitem__(e["n"] - 1, e["dist"][e["n"] - 1] + 1)))
+        probe("sparse: a middle distance - 1 -> C18", w, "DijkstraSparse.tla", "Spec", ["C18"], {}, "ds.ndjson",
+              lambda l: edit_first(l, issp, lambda e: e["dist"].__setitem__(500, e["dist"][500] - 1)))
+        probe("sparse: predecessor without an edge -> C18", w, "DijkstraSparse.tla", "Spec", ["C18"], {}, "ds.ndjson",
+              lambda l: edit_first(l, issp, lambda e: e["prev"].__setitem__(700, 3)))
+        probe("sparse: chain edge missing -> DriverOK", w, "DijkstraSparse.tla", "Spec", ["DriverOK"], {}, "ds.ndjson",
+              lambda l: edit_first(l, issp, lambda e: e.__setitem__("edges", [x for x in e["edges"] if not (x[0] == 10 and x[1] == 11)])))
         # once protocol
         consts = {"G": "2", "Uses": "1", "Bugs": "{}"}
         write_cfg(w, "O.cfg", "Spec", ["EmitSched"], constants=consts, post=None, alias=None)
